@@ -20,7 +20,7 @@
     item of [items] for the value [a] with the formatter and runs [unambiguous_ws_b]. *)
 From Coq Require Import ZArith List Bool.
 From V Require Import Base.Int Base.IO Base.Utf8 Model.Scan Model.Items Model.Parse
-  Proofs.Utf8 Proofs.Scan Proofs.C13 Proofs.C13Reads Proofs.C13Fmt Proofs.C13Examples Proofs.C13Names Proofs.C13Digits Proofs.C13Safe Proofs.C13Time Proofs.C13Date Proofs.C13OneWay Proofs.C13View Proofs.C13DateTime Proofs.C13DateForms Proofs.C13TimeForms Proofs.C13Zoned Proofs.C13General Proofs.C13Static.
+  Proofs.Utf8 Proofs.Scan Proofs.C13 Proofs.C13Reads Proofs.C13Fmt Proofs.C13Examples Proofs.C13Names Proofs.C13Digits Proofs.C13Safe Proofs.C13Time Proofs.C13Date Proofs.C13OneWay Proofs.C13View Proofs.C13DateTime Proofs.C13DateForms Proofs.C13TimeForms Proofs.C13Zoned Proofs.C13General Proofs.C13Static Proofs.C13ZonedGeneral.
 From V Require Model.Parsed Model.Format Model.Strftime Model.Time Model.DateTime Spec.StrftimeDoc Spec.Gregorian Proofs.C12 Proofs.C14.
 Import ListNotations.
 Open Scope Z_scope.
@@ -437,7 +437,7 @@ Print Assumptions C13_writes_below_view.
     every date / time field of the value, [on] being the nanosecond field the fraction items print
     ([doc_item sv on it t]: [t] is the documented rendering and the item's fraction, if any, is [on]).
     Supported item kinds: literals, white space, every Numeric item except IsoYearDiv100 and Timestamp,
-    month and weekday names, AM/PM, %.f %.3f %.6f %.9f %3f %6f %9f. *)
+    month and weekday names, AM/PM, %.f %.3f %.6f %.9f %3f %6f %9f, %z %:z (on whole-minute offsets). *)
 (* through C12: the documented rendering is what the formatter prints *)
 Theorem C13_doc_render_is_printed : forall a sv it t, Proofs.C12.args_view a sv ->
   doc_render sv it = Some t -> Model.Format.format_item a it = Model.Format.fok t.
@@ -446,7 +446,8 @@ Print Assumptions C13_doc_render_is_printed.
 
 (* the link that was missing: whatever the reader recognises in the documented rendering of an item
    is a write of a field OF THE VALUE, within the setter's range (no follow condition needed) *)
-Theorem C13_item_value : forall sv on it t rest w, sv_bounds sv -> doc_item sv on it t ->
+Theorem C13_item_value : forall sv on it t rest w, sv_bounds sv ->
+  (forall o, Spec.StrftimeDoc.sv_off sv = Some o -> o mod 60 = 0) -> doc_item sv on it t ->
   reads_b it t rest = Some w -> w_ok (gview sv on) w.
 Proof. exact item_value. Qed.
 Print Assumptions C13_item_value.
@@ -466,14 +467,15 @@ Print Assumptions C13_view_sound.
 
 (** format_parse_roundtrip, GENERAL form.  PARTIAL -- side conditions that remain:
     (1) the items are of the supported kinds and have a documented rendering for the value
-        ([doc_item]; excludes %s, %Z, the offset items, %+, RFC 2822, and %C %y %g on negative years);
+        ([doc_item]; excludes %s, %Z, %::z %:::z %#z, %+, RFC 2822, and %C %y %g on negative years);
     (2) the text is accepted by [unambiguous_b] (hypothesis, decidable for a given value; the variant
         [unambiguous_ws_b] for space-padded numbers right after white space is not lifted);
     (3) the field set the reader builds contains a documented sufficient combination
         ([date_comb_b Y IY] / [time_comb_b], decidable): each year group absent or given in full, or as
         century + two-digit year, or as the two-digit year alone when the (ISO) year is in 1970..=2069;
     (4) all fraction items of the list print the same nanosecond value [on];
-    (5) DateTime<FixedOffset> is covered by the family theorem C13_dtz_roundtrip only.
+    (5) for DateTime<FixedOffset> (C13_general_dtz_roundtrip_partial below) the value is in [valid_dtz]:
+        whole-minute offset, wall-clock date a NaiveDate.
     Result: parsing the formatted text returns the date itself / the time [time_kept p t] made of the
     printed fields of [t] (hour and minute; the second with the leap flag if printed, else 0; the
     printed fraction digits [on] if any) / the date-time of both. *)
@@ -559,14 +561,15 @@ Print Assumptions C13_general_members.
     sufficient combination on the fields the items write ([sfields]); [frac_class_ok k] that all
     fraction items print the same precision [k].  The class is a decidable under-approximation of
     "unambiguous and sufficient": the C13_general_*_partial theorems remain for lists outside it. *)
-Theorem C13_class_accepted_for_every_value : forall sv on, sv_bounds sv -> forall items texts,
+Theorem C13_class_accepted_for_every_value : forall sv on, sv_bounds sv ->
+  (forall o, Spec.StrftimeDoc.sv_off sv = Some o -> o mod 60 = 0) -> forall items texts,
   static_ok items = true -> Forall2 (doc_item sv on) items texts ->
   exists ws, unambiguous_b (combine items texts) [] = Some ws.
 Proof. exact static_accept. Qed.
 Print Assumptions C13_class_accepted_for_every_value.
 
 Theorem C13_class_date_roundtrip : forall items,
-  static_ok items = true -> forallb (it_kind_ok true false) items = true -> static_date_ok items = true ->
+  static_ok items = true -> forallb (it_kind_ok true false false) items = true -> static_date_ok items = true ->
   forall y o d, Proofs.C08Sweeps.repr y o d ->
   exists text,
     Model.Format.write_items (Model.Format.fa_of_date d) items [] = Model.Format.fok text /\
@@ -577,7 +580,7 @@ Print Assumptions C13_class_date_roundtrip.
 (* [static_time_value items k t]: [t] with the second (and leap flag) kept iff an item prints it, else
    the whole minute; the fraction cut to [k] digits iff a fraction item is present, else dropped *)
 Theorem C13_class_time_roundtrip : forall items k,
-  static_ok items = true -> forallb (it_kind_ok false true) items = true -> static_time_ok items = true ->
+  static_ok items = true -> forallb (it_kind_ok false true false) items = true -> static_time_ok items = true ->
   frac_class_ok k items = true -> k = 3 \/ k = 6 \/ k = 9 ->
   forall t, valid_time t ->
   exists text,
@@ -588,7 +591,7 @@ Proof. exact static_time_roundtrip. Qed.
 Print Assumptions C13_class_time_roundtrip.
 
 Theorem C13_class_ndt_roundtrip : forall items k,
-  static_ok items = true -> forallb (it_kind_ok true true) items = true ->
+  static_ok items = true -> forallb (it_kind_ok true true false) items = true ->
   static_date_ok items = true -> static_time_ok items = true ->
   frac_class_ok k items = true -> k = 3 \/ k = 6 \/ k = 9 ->
   forall y o d t, Proofs.C08Sweeps.repr y o d -> valid_time t ->
@@ -612,11 +615,11 @@ Example C13_class_members :
   ndt_static 9 [num0 N_IsoYear; Literal [45; 87]; num0 N_IsoWeek; Literal [45]; IFixed F_ShortWeekdayName; Space [32];
                 num0 N_Hour; Literal [58]; num0 N_Minute] = true /\
   ndt_static 3 (YMD_FMT ++ [Space [32]; num0 N_Hour; Literal [58]; num0 N_Minute; IFixed F_Nanosecond3]) = false /\
-  (static_ok YMD_FMT && forallb (it_kind_ok true false) YMD_FMT && static_date_ok YMD_FMT) = true /\
-  (static_ok YJ_FMT && forallb (it_kind_ok true false) YJ_FMT && static_date_ok YJ_FMT) = true /\
-  (static_ok ISOW_FMT && forallb (it_kind_ok true false) ISOW_FMT && static_date_ok ISOW_FMT) = true /\
-  (static_ok IMSP_FMT && forallb (it_kind_ok false true) IMSP_FMT && static_time_ok IMSP_FMT) = true /\
-  (static_ok (HMSF F_Nanosecond) && forallb (it_kind_ok false true) (HMSF F_Nanosecond) && static_time_ok (HMSF F_Nanosecond)
+  (static_ok YMD_FMT && forallb (it_kind_ok true false false) YMD_FMT && static_date_ok YMD_FMT) = true /\
+  (static_ok YJ_FMT && forallb (it_kind_ok true false false) YJ_FMT && static_date_ok YJ_FMT) = true /\
+  (static_ok ISOW_FMT && forallb (it_kind_ok true false false) ISOW_FMT && static_date_ok ISOW_FMT) = true /\
+  (static_ok IMSP_FMT && forallb (it_kind_ok false true false) IMSP_FMT && static_time_ok IMSP_FMT) = true /\
+  (static_ok (HMSF F_Nanosecond) && forallb (it_kind_ok false true false) (HMSF F_Nanosecond) && static_time_ok (HMSF F_Nanosecond)
    && frac_class_ok 9 (HMSF F_Nanosecond)) = true.
 Proof. exact static_members. Qed.
 Print Assumptions C13_class_members.
@@ -626,7 +629,7 @@ Print Assumptions C13_class_members.
    every value v *)
 Theorem C13_class_date_parse_from_str : forall fmt items,
   items_of fmt = Val (Some items) ->
-  static_ok items = true -> forallb (it_kind_ok true false) items = true -> static_date_ok items = true ->
+  static_ok items = true -> forallb (it_kind_ok true false false) items = true -> static_date_ok items = true ->
   forall y o d, Proofs.C08Sweeps.repr y o d ->
   exists text,
     Model.Format.delayed_display (Model.Format.fa_of_date d) (Model.Strftime.sf_new fmt) = Model.Format.fok text /\
@@ -636,7 +639,7 @@ Print Assumptions C13_class_date_parse_from_str.
 
 Theorem C13_class_time_parse_from_str : forall fmt items k,
   items_of fmt = Val (Some items) ->
-  static_ok items = true -> forallb (it_kind_ok false true) items = true -> static_time_ok items = true ->
+  static_ok items = true -> forallb (it_kind_ok false true false) items = true -> static_time_ok items = true ->
   frac_class_ok k items = true -> k = 3 \/ k = 6 \/ k = 9 ->
   forall t, valid_time t ->
   exists text,
@@ -647,7 +650,7 @@ Print Assumptions C13_class_time_parse_from_str.
 
 Theorem C13_class_ndt_parse_from_str : forall fmt items k,
   items_of fmt = Val (Some items) ->
-  static_ok items = true -> forallb (it_kind_ok true true) items = true ->
+  static_ok items = true -> forallb (it_kind_ok true true false) items = true ->
   static_date_ok items = true -> static_time_ok items = true ->
   frac_class_ok k items = true -> k = 3 \/ k = 6 \/ k = 9 ->
   forall y o d t, Proofs.C08Sweeps.repr y o d -> valid_time t ->
@@ -665,6 +668,74 @@ Example C13_class_format_strings :
   fmt_ndt_class 9 [37;68;32;37;82] = false.
 Proof. exact class_format_strings. Qed.
 Print Assumptions C13_class_format_strings.
+
+(** ** DateTime<FixedOffset> in the general composition and in the item-list class: the fields are those
+    of the wall clock ([sv_of_dtz]: local day number and local time) plus the offset; the result is the
+    instant whose wall clock has the printed fields, [back_time off] taking a wall-clock time back to UTC *)
+Theorem C13_general_dtz_roundtrip_partial : forall yu ou du su fu off on items texts ws,
+  let z := Model.DateTime.mk_dtz (Model.DateTime.mk_ndt du (Model.Time.mk_time su fu)) off in
+  let n := Spec.Gregorian.dn_of_yo yu ou + (su + off) / 86400 in
+  let yl := fst (Spec.Gregorian.yo_of_dn n) in let ol := snd (Spec.Gregorian.yo_of_dn n) in
+  let tl := Model.Time.mk_time ((su + off) mod 86400) fu in
+  let sv := sv_of_dtz (Spec.Gregorian.dn_of_yo yl ol) tl off in
+  valid_dtz yu ou z -> (forall k, on = Some k -> 0 <= k <= 999999999) ->
+  Forall2 (doc_item sv on) items texts ->
+  unambiguous_b (combine items texts) [] = Some ws ->
+  date_comb_b yl (fst (Spec.Gregorian.iso_of_dn (Spec.Gregorian.dn_of_yo yl ol))) (apply_ws ws Model.Parsed.parsed_new) = true ->
+  time_comb_b (apply_ws ws Model.Parsed.parsed_new) = true ->
+  some_b (Model.Parsed.p_offset (apply_ws ws Model.Parsed.parsed_new)) = true ->
+  exists a,
+    Model.Format.fa_of_dtz z = Val a /\
+    Model.Format.write_items a items [] = Model.Format.fok (List.concat texts) /\
+    (let+ q := parse Model.Parsed.parsed_new (List.concat texts) items in pr_of (Model.Parsed.to_datetime q)) =
+      pok (Model.DateTime.mk_dtz (Model.DateTime.mk_ndt du (back_time off (time_kept (apply_ws ws Model.Parsed.parsed_new) tl))) off) /\
+    (forall v, Model.Parsed.p_second (apply_ws ws Model.Parsed.parsed_new) = Some v -> v = ss tl) /\
+    (forall k, Model.Parsed.p_nanosecond (apply_ws ws Model.Parsed.parsed_new) = Some k -> on = Some k).
+Proof. exact general_dtz_roundtrip. Qed.
+Print Assumptions C13_general_dtz_roundtrip_partial.
+
+(* premises on the item list only ([dtz_static]: the class, the three kinds of fields available, sufficient
+   date and time combinations, an offset item, one fraction precision), for every value of [valid_dtz]:
+   the UTC date-time with the printed fields of the time, same offset *)
+Theorem C13_class_dtz_roundtrip : forall items k,
+  dtz_static k items = true -> k = 3 \/ k = 6 \/ k = 9 ->
+  forall yu ou z, valid_dtz yu ou z ->
+  exists a text,
+    Model.Format.fa_of_dtz z = Val a /\
+    Model.Format.write_items a items [] = Model.Format.fok text /\
+    (let+ q := parse Model.Parsed.parsed_new text items in pr_of (Model.Parsed.to_datetime q)) =
+      pok (Model.DateTime.mk_dtz
+             (Model.DateTime.mk_ndt (Model.DateTime.nd_date (Model.DateTime.dz_utc z))
+                (static_time_value items k (Model.DateTime.nd_time (Model.DateTime.dz_utc z))))
+             (Model.DateTime.dz_off z)).
+Proof. exact static_dtz_roundtrip. Qed.
+Print Assumptions C13_class_dtz_roundtrip.
+
+Theorem C13_class_dtz_parse_from_str : forall fmt items k,
+  items_of fmt = Val (Some items) -> dtz_static k items = true -> k = 3 \/ k = 6 \/ k = 9 ->
+  forall yu ou z, valid_dtz yu ou z ->
+  exists a text,
+    Model.Format.fa_of_dtz z = Val a /\
+    Model.Format.delayed_display a (Model.Strftime.sf_new fmt) = Model.Format.fok text /\
+    dt_parse_from_str text fmt =
+      pok (Model.DateTime.mk_dtz
+             (Model.DateTime.mk_ndt (Model.DateTime.nd_date (Model.DateTime.dz_utc z))
+                (static_time_value items k (Model.DateTime.nd_time (Model.DateTime.dz_utc z))))
+             (Model.DateTime.dz_off z)).
+Proof. exact class_dtz_parse_from_str. Qed.
+Print Assumptions C13_class_dtz_parse_from_str.
+
+(* "%Y-%m-%dT%H:%M:%S%z" / "%:z", "%Y-%m-%d %H:%M:%S%.3f %:z", "%a, %d %b %Y %H:%M:%S %z" (the RFC 2822 shape)
+   are members; a list without an offset item is not *)
+Example C13_class_dtz_members :
+  dtz_static 9 (DTZ_FMT false) = true /\ dtz_static 9 (DTZ_FMT true) = true /\
+  dtz_static 3 (YMD_FMT ++ Space [32] :: Gen.Strftime.SF_T_FMT ++ [IFixed F_Nanosecond3; Space [32]; IFixed F_TimezoneOffsetColon]) = true /\
+  dtz_static 9 [IFixed F_ShortWeekdayName; Literal [44]; Space [32]; num0 N_Day; Space [32]; IFixed F_ShortMonthName; Space [32];
+                num0 N_Year; Space [32]; num0 N_Hour; Literal [58]; num0 N_Minute; Literal [58]; num0 N_Second; Space [32];
+                IFixed F_TimezoneOffset] = true /\
+  dtz_static 9 NDT_T_FMT = false.
+Proof. exact dtz_static_members. Qed.
+Print Assumptions C13_class_dtz_members.
 
 (* the entry points' lazily driven loops coincide with the loops over the yielded item list *)
 Theorem C13_parse_sf_loop_is_parse_items : forall items fuel p s st, yields st items -> (List.length items < fuel)%nat ->
